@@ -18,11 +18,15 @@ pub fn no_child(_: &[String]) -> i32 {
     2
 }
 
+pub mod codec;
 pub mod okey;
+pub mod walframe;
 
 pub fn all() -> Vec<StreamDef> {
     vec![
+        codec::def(),
         okey::def(),
+        walframe::def(),
     ]
 }
 
